@@ -33,8 +33,9 @@ import (
 // r <= latest after a block. A last candidate is checked after round B+R.
 //
 // Candidates: the txid has one symbolic byte; senders come from a pool of 2; the
-// lease is zero or one fixed non-zero value; fv, lv are symbolic within
-// MaxTxnLife+1 of the round. A txid is a collision-free hash of the transaction,
+// lease is zero or one fixed non-zero value; fv, lv are symbolic, well formed
+// (lv-fv <= MaxTxnLife); candidates of rounds that get a block are alive
+// (fv <= cur <= lv), the final query lies anywhere within MaxTxnLife+1 of the round. A txid is a collision-free hash of the transaction,
 // therefore two candidates with the same txid have the same fields (assumed).
 //
 // Consensus: SupportTransactionLeases = true, FixTransactionLeases on (off in the
@@ -255,15 +256,15 @@ func VerifC11TxTailFresh() { verifC11Run(0, true, 2, vr.Param(0, 1) == 1) }
 func VerifC11TxTailSteady() { verifC11Run(1000, true, 2, vr.Param(0, 1) == 1) }
 
 // the legacy lease rule (FixTransactionLeases off: only the candidate's own
-// validity window is searched for a lease)
+// validity window is searched for a lease); narrow bounds
 //
 //verif:harness prop=C11 tier=thorough reach=done,leasehit,txidhit,fresh,stale,included,trimmed unwind=10 budget=2400
 //verif:stub (*github.com/algorand/go-algorand/ledger/store/trackerdb.TxTailRound).Encode = verifStubTailEncode
-func VerifC11TxTailFreshLegacy() { verifC11Run(0, false, 2, true) }
+func VerifC11TxTailFreshLegacy() { verifC11Run(0, false, 2, false) }
 
 //verif:harness prop=C11 tier=thorough reach=done,leasehit,txidhit,fresh,stale,included,trimmed unwind=10 budget=2400
 //verif:stub (*github.com/algorand/go-algorand/ledger/store/trackerdb.TxTailRound).Encode = verifStubTailEncode
-func VerifC11TxTailSteadyLegacy() { verifC11Run(1000, false, 2, true) }
+func VerifC11TxTailSteadyLegacy() { verifC11Run(1000, false, 2, false) }
 
 // three rounds (narrow)
 //
